@@ -128,7 +128,36 @@ func buildState(r *rand.Rand, adapter string, spec adapt.TableSpec, n int, ctx *
 		return nil, nil, nil, false
 	}
 	ops := []adapt.Op{}
+	// a quarter of the states are "lived-in": the table is cleared somewhere in the history and refilled; a
+	// sixth lose and regain an index (UpdateTable delete + create, i.e. a backfill) - what is read afterwards
+	// must not depend on what the table or the index held before
+	clearAt, reindexAt := -1, -1
+	if n > 4 && r.Intn(4) == 0 {
+		clearAt = 2 + r.Intn(n-3)
+	}
+	if n > 4 && len(spec.Indexes) > 0 && r.Intn(6) == 0 {
+		reindexAt = 2 + r.Intn(n-3)
+	}
 	for i := 0; i < n; i++ {
+		if i == clearAt {
+			ops = append(ops, adapt.Op{Kind: adapt.OpClearTable, Table: spec.Name})
+		}
+		if i == reindexAt {
+			var ix *adapt.IndexSpec
+			for k := range spec.Indexes {
+				if !spec.Indexes[k].Local {
+					c := spec.Indexes[k]
+					ix = &c
+					if r.Intn(2) == 0 {
+						break
+					}
+				}
+			}
+			if ix != nil {
+				ops = append(ops, adapt.Op{Kind: adapt.OpUpdateTable, Table: spec.Name, Chg: []adapt.IndexChange{{Delete: ix.Name}}},
+					adapt.Op{Kind: adapt.OpUpdateTable, Table: spec.Name, Chg: []adapt.IndexChange{{Create: ix}}})
+			}
+		}
 		ops = append(ops, ixRandomWrite(r, spec.Name, i))
 	}
 	st := &mon.HistoryStats{}
